@@ -89,10 +89,10 @@ AdvRow(pre, ctx, k) == ctx.R \/ pre.caps[k] = 1      \* k: 3 = BDS 4,0; 5 = 5,0;
 AdvEver(adv, ctx, reg) == ctx.R \/ adv[reg]
 
 \* strict sufficient condition for "this reply is register X and must be decoded"
-Must40(pre, f, ctx) == Gate(pre, ctx) /\ AdvRow(pre, ctx, 3) /\ ~Explicit(f) /\ Valid40S(f) /\ NonZero40(f) /\ ~Earlier40(f)
-Must50(pre, f, ctx) == Gate(pre, ctx) /\ AdvRow(pre, ctx, 5) /\ ~Explicit(f) /\ Valid50S(f) /\ NonZero50(f)
+Must40(pre, f, ctx) == ctx.exists /\ Gate(pre, ctx) /\ AdvRow(pre, ctx, 3) /\ ~Explicit(f) /\ Valid40S(f) /\ NonZero40(f) /\ ~Earlier40(f)
+Must50(pre, f, ctx) == ctx.exists /\ Gate(pre, ctx) /\ AdvRow(pre, ctx, 5) /\ ~Explicit(f) /\ Valid50S(f) /\ NonZero50(f)
                        /\ Plausible50(f) /\ ~Earlier50(f)
-Must60(pre, f, ctx) == Gate(pre, ctx) /\ AdvRow(pre, ctx, 6) /\ ~Explicit(f) /\ Valid60S(f) /\ NonZero60(f)
+Must60(pre, f, ctx) == ctx.exists /\ Gate(pre, ctx) /\ AdvRow(pre, ctx, 6) /\ ~Explicit(f) /\ Valid60S(f) /\ NonZero60(f)
                        /\ Plausible60(f) /\ ~Earlier60(f)
 \* liberal necessary condition for "a field of register X may change"
 May40(pre, f, ctx, adv) == Gate(pre, ctx) /\ AdvEver(adv, ctx, "b40") /\ Valid40L(f)
